@@ -529,9 +529,14 @@ pub fn check(ctx: &Ctx) {
         (1, LenForm::New5),
     ];
     for tag in DATA_TAGS {
-        let depth = if tag == 11 { if quick { 2 } else { 3 } } else { 1 };
+        let depth = if tag == 11 { if quick { 2 } else { 3 } } else if quick { 1 } else { 2 };
         for first in &firsts {
-            for more in exp_seqs(&more_alpha, depth) {
+            let mut seqs = exp_seqs(&more_alpha, depth);
+            if !quick && tag == 11 {
+                // one level deeper over the sub-alphabet of the quick tier
+                seqs.extend(exp_seqs(&[0, 1, 5, 9, 12, 16], 4).into_iter().filter(|s| s.len() == 4));
+            }
+            for more in seqs {
                 let mut exps = vec![*first];
                 exps.extend(more);
                 let total: usize = exps.iter().map(|e| 1usize << e).sum();
@@ -552,7 +557,7 @@ pub fn check(ctx: &Ctx) {
     ctx.run_space(
         "partial_body",
         true,
-        "data tags {8,9,11,18,20}: first chunk 2^9..2^16 (quick: 4 values) then 0..2 (thorough 0..3 for literal) further chunks 2^0..2^16, final fixed chunk in {0,1,191,192,8383,8384} in each applicable encoding incl. non-minimal 5-octet; followed by a marker. Oracle: same value as the fixed framing of the same body through PacketParser, and for literals the same data through Message.",
+        "data tags {8,9,11,18,20}: first chunk 2^9..2^16 (quick: 4 values) then 0..2 (quick: literal only; thorough: 0..3 for literal plus all 4-chunk sequences over {2^0,2^1,2^5,2^9,2^12,2^16}, 0..2 for the other tags) further chunks 2^0..2^16, final fixed chunk in {0,1,191,192,8383,8384} in each applicable encoding incl. non-minimal 5-octet; followed by a marker. Oracle: same value as the fixed framing of the same body through PacketParser, and for literals the same data through Message.",
         pc.into_par_iter(),
         run_partial,
     );
